@@ -41,7 +41,7 @@ let nat s = nat_of_int (int_of_string s)
 let kind_of s = match s with
   | "buf" -> KBuf | "hbuf" -> KHBuf | "hcnt" -> KHCnt | "huni" -> KHUni | "gen" -> KGen | "mbuf" -> KMetaBuf
   | "cfg" -> KCfg | "top" -> KCfgTop | "reply" -> KReply | "raw" -> KRaw | "stream" -> KStream | "cxx" -> KCxx
-  | "iterf" -> KIterFd | "itern" -> KIterName | "xgen" -> KXGen
+  | "iterf" -> KIterFd | "itern" -> KIterName | "xgen" -> KXGen | "stage" -> KStage
   | _ -> failwith ("bad kind " ^ s)
 
 let rec parse_ops toks = match toks with
@@ -72,6 +72,13 @@ let rec parse_ops toks = match toks with
   | "xdrop" :: d :: r -> XDrop (nat d) :: parse_ops r
   | "xgen" :: d :: r -> XGen (nat d) :: parse_ops r
   | "xclone" :: s :: d :: r -> XClone (nat s, nat d) :: parse_ops r
+  (* modify m <dim> <form>: forms 0..2 store a value (the dimension and the value form do not matter for the
+     references), forms 3.. are refused before anything is touched *)
+  | "modify" :: m :: _ :: f :: r ->
+    (if int_of_string f < 3 then ORawModify (nat m) else ORawCall (nat m, true)) :: parse_ops r
+  | "advance" :: m :: r -> ORawAdvance (nat m) :: parse_ops r
+  | "rget" :: m :: a :: r -> ORawGet (nat m, nat a) :: parse_ops r
+  | "rread" :: m :: r -> ORawCall (nat m, false) :: parse_ops r
   | t :: _ -> failwith ("bad op " ^ t)
 
 let rec parse_cops toks = match toks with
